@@ -1,6 +1,9 @@
 """C14 detection demonstrations: property-breaking changes applied by monkey-patching (no edit of /repo).
 
-    cd /verif && PYTHONPATH=/verif:/repo PYTHONHASHSEED=0 /venv/bin/python -m mc.c14_demo <name> [phase,phase] [family,family]
+    cd /verif && PYTHONPATH=/verif:/repo PYTHONHASHSEED=0 /venv/bin/python -m mc.c14_demo <name> [phase,phase] [family,family|all]
+
+(default: the grammar phase restricted to the depth-1 and type families, ~40 CPU seconds; `corpus,grammar,corrupt all`
+is the complete quick tier under the patch)
 
 names:
   none                 unchanged tree (baseline signatures of the same restricted run)
@@ -88,7 +91,7 @@ def main() -> None:
 
     name = sys.argv[1]
     phases = tuple(sys.argv[2].split(",")) if len(sys.argv) > 2 else ("grammar",)
-    families = tuple(sys.argv[3].split(",")) if len(sys.argv) > 3 else ("S", "E", "P", "TxA")
+    families = (None if sys.argv[3] == "all" else tuple(sys.argv[3].split(","))) if len(sys.argv) > 3 else ("S", "E", "P", "TxA")
     c14.L.preload()
     apply(name)
     res = c14.run(Ctx("quick", 0), phases=phases, families=families)
